@@ -13,7 +13,8 @@
 (***************************************************************************)
 EXTENDS TextFmt, TLC
 
-CONSTANT Cases      \* a function: group name -> set of case records (TLC builds each group on its own)
+CONSTANTS Groups,      \* names of the case groups
+          CasesOf(_)   \* group name -> set of case records (an operator: built per group, by the worker that picks it)
 
 SingleShot == {"shz", "str2midi", "midi2freq", "freq2midi", "str2freq", "freq2str", "mulfmt", "pairsum",
                "autolist"}
@@ -65,10 +66,10 @@ VARIABLES case, pc, st, res
 vars == <<case, pc, st, res>>
 
 \* (TLC computes initial states with one thread: Init only names the group, Pick draws the case)
-Init == /\ \E g \in DOMAIN Cases : case = [k |-> "pick", g |-> g]
+Init == /\ \E g \in Groups : case = [k |-> "pick", g |-> g]
         /\ pc = "pick" /\ st = <<>> /\ res = <<>>
 Pick == /\ pc = "pick"
-        /\ case' \in Cases[case.g]
+        /\ case' \in CasesOf(case.g)
         /\ pc' = "run" /\ st' = KInit(case') /\ UNCHANGED res
 
 StepOf(kind) == /\ pc = "run" /\ case.k = kind /\ ~KDone(case, st)
